@@ -206,7 +206,8 @@ ALL_FEATURES = (
 # features outside what the reference cascade of C08 models or what C08's statement quantifies over
 C09_ONLY = ("opaque-atrules", "vendor-hacks", "star-hack", "crlf", "bom", "cdo-cdc", "odd-strings", "dup-root", "nested-root", "unicode-seps", "dup-selectors")
 
-_SEL_FORMS = (".r%d", "#id%d", "a.x%d:hover", "div > p.k%d", "[data-x=\"%d\"]", "ul li.i%d", "h%d")
+_SEL_FORMS = (".r%d", "#id%d", "a.x%d:hover", "div > p.k%d", "[data-x=\"%d\"]", "ul li.i%d", "h%d", "p.c%d::before", "a.u%d, a.u%d:visited",
+              "input[type='text'].q%d", "a+b.s%d", "li ~ li.t%d")
 _SEL_FORMS_NONASCII = (".r\u00e9%d", ".\u4e2d%d", "#\u00fc%d")
 _OTHER_DECLS = ("margin: 0", "font-size: 14px", "border: 1px solid #123456", "background: url(a.png)", "padding:1em 2em",
                 "font-family: \"Helvetica Neue\", Arial", "line-height:1.5", "border-color: red", "outline-color: #777",
@@ -227,6 +228,9 @@ _OPAQUE_BLOCKS = (
     "@font-feature-values Font One { @styleset { nice-style: 12; } }",
 )
 _ODD_DECLS = (
+    "width: calc(1px + 2px)", "margin: -.5e3px +.5px", "unicode-range: U+0025-00FF, U+4??", "background: url( spaced.png )",
+    "grid-area: 1 / 2 / 3", "--blk: { a: b; c: d }", "font: 12px/1.5 a, \"b c\"", "transform: translate( -50% , 10px )",
+    "content: \"\\201C\" attr(title) \"\\201D\"", "margin: calc( (1px+2px) * 3 )",
     "background: url(data:image/png;base64,iVBOR/*x*/w0KGgo=)", "content: \"}\"", "content: '/* not a comment */'",
     "content: \"\\\"; color: red\"", "background-image: url(\"a;b{c}.png\")", "quotes: \"{\" \"}\"",
     "font-family: a\\;b", "width: calc(100% - (2 * 1px))", "grid-template-areas: \"a b\" \"c d\"",
@@ -278,7 +282,11 @@ class SheetGen:
         n = self.nsel
         if f == "h%d":
             return "h%d.s%d%s" % (1 + n % 6, n, self.tag)
-        return (f % n) + (self.tag if not f.startswith("[") else "")
+        if f.startswith("[data-x"):
+            return "[data-x=\"%d%s\"]" % (n, self.tag)
+        if f.count("%d") == 2:
+            return f % (n, n) + self.tag
+        return (f % n) + self.tag
 
     def literal(self, rgb):
         return spell(self.rng, rgb, CSS_SPELLINGS)[0]
@@ -335,6 +343,10 @@ class SheetGen:
             bg_rgb = rand_rgb(r)
             if "bg-var" in f and "vars" in f and r.random() < 0.3:
                 v = "var(%s)" % self.new_var(bg_rgb)
+                if "var-fallback" in f and r.random() < 0.4:
+                    v = v[:-1] + ", %s)" % self.literal(rand_rgb(r))
+            elif "bg-var" in f and "var-undefined" in f and r.random() < 0.15:
+                v = "var(--undefined%d, %s)" % (r.randrange(3), self.literal(bg_rgb))
             else:
                 v = self.literal(bg_rgb)
             bgd = {"p": _prop_case(r, "background-color", f), "v": v, "imp": ""}
